@@ -422,9 +422,9 @@ func (cons *VesaFbConsole) packColor32(colorIndex uint8) [4]uint8 {
 	var (
 		c             = cons.palette[colorIndex].(color.RGBA)
 		packed uint32 = 0 |
-			(uint32(c.R>>(8-cons.colorInfo.RedMaskSize)) << cons.colorInfo.RedPosition) |
-			(uint32(c.G>>(8-cons.colorInfo.GreenMaskSize)) << cons.colorInfo.GreenPosition) |
-			(uint32(c.B>>(8-cons.colorInfo.BlueMaskSize)) << cons.colorInfo.BluePosition)
+			(scaleColor(c.R, cons.colorInfo.RedMaskSize) << cons.colorInfo.RedPosition) |
+			(scaleColor(c.G, cons.colorInfo.GreenMaskSize) << cons.colorInfo.GreenPosition) |
+			(scaleColor(c.B, cons.colorInfo.BlueMaskSize) << cons.colorInfo.BluePosition)
 	)
 
 	return [4]uint8{
@@ -441,15 +441,25 @@ func (cons *VesaFbConsole) packColor16(colorIndex uint8) [2]uint8 {
 	var (
 		c             = cons.palette[colorIndex].(color.RGBA)
 		packed uint16 = 0 |
-			(uint16(c.R>>(8-cons.colorInfo.RedMaskSize)) << cons.colorInfo.RedPosition) |
-			(uint16(c.G>>(8-cons.colorInfo.GreenMaskSize)) << cons.colorInfo.GreenPosition) |
-			(uint16(c.B>>(8-cons.colorInfo.BlueMaskSize)) << cons.colorInfo.BluePosition)
+			(uint16(scaleColor(c.R, cons.colorInfo.RedMaskSize)) << cons.colorInfo.RedPosition) |
+			(uint16(scaleColor(c.G, cons.colorInfo.GreenMaskSize)) << cons.colorInfo.GreenPosition) |
+			(uint16(scaleColor(c.B, cons.colorInfo.BlueMaskSize)) << cons.colorInfo.BluePosition)
 	)
 
 	return [2]uint8{
 		uint8(packed),
 		uint8(packed >> 8),
 	}
+}
+
+// scaleColor converts an 8-bit color component to a component of maskSize
+// bits: the most significant bits are kept for masks of up to 8 bits and the
+// component is left-justified in wider masks (e.g. 10 bits per channel).
+func scaleColor(comp, maskSize uint8) uint32 {
+	if maskSize > 8 {
+		return uint32(comp) << (maskSize - 8)
+	}
+	return uint32(comp >> (8 - maskSize))
 }
 
 // Palette returns the active color palette for this console.
